@@ -200,6 +200,140 @@ def c19_task(payload):
         build.drop_module(mod)
 
 
+STUB_SRC = {
+    "lazy": '''
+@dataclass
+class C(MIX):
+    a: int = 0
+    b: Optional[H1] = None
+    def __pre_serialize__(self{ctx}):
+        LOG.append(("pre_ser", id(self)))
+        return self
+    def __post_serialize__(self, d{ctx}):
+        LOG.append(("post_ser", id(self)))
+        return d
+    @classmethod
+    def __pre_deserialize__(cls, d):
+        LOG.append(("pre_de", 0))
+        return d
+    @classmethod
+    def __post_deserialize__(cls, obj):
+        LOG.append(("post_de", 0))
+        return obj
+    class Config(BaseConfig):
+        lazy_compilation = True
+        code_generation_options = [{opts}]
+''',
+    "postponed": '''
+@dataclass
+class C(MIX):
+    a: int = 0
+    n: Optional["Later"] = None
+    def __pre_serialize__(self{ctx}):
+        LOG.append(("pre_ser", id(self)))
+        return self
+    def __post_serialize__(self, d{ctx}):
+        LOG.append(("post_ser", id(self)))
+        return d
+    @classmethod
+    def __pre_deserialize__(cls, d):
+        LOG.append(("pre_de", 0))
+        return d
+    @classmethod
+    def __post_deserialize__(cls, obj):
+        LOG.append(("post_de", 0))
+        return obj
+    class Config(BaseConfig):
+        code_generation_options = [{opts}]
+@dataclass
+class Later(MIX):
+    z: int = 0
+''',
+}
+HOOK_NAMES = ("__pre_serialize__", "__post_serialize__", "__pre_deserialize__", "__post_deserialize__")
+
+
+def stub_task(payload):
+    """lazy / postponed classes with hooks: the stub that compiles the real method on first use must not run
+    a hook itself (the method it re-dispatches to runs each exactly once): ghost count 0 on every path of the
+    stub, by symbolic execution of the stub text; the first call is also replayed natively with counting hooks"""
+    pid, base, mode, ctx = payload
+    label = f"[{base}/{mode}{'/ctx' if ctx else ''}]"
+    imp, mix, eps = BASES[base]
+    src = "\n".join([g4.PRELUDE, "from mashumaro.config import ADD_SERIALIZATION_CONTEXT", imp, "LOG = []"]) + STUB_SRC[mode].format(
+        ctx=", context=None" if ctx else "", opts="ADD_SERIALIZATION_CONTEXT" if ctx else "")
+    obs = []
+    try:
+        mod, recs0 = build.build_module(src)
+    except Exception as e:
+        return {"obligations": [dict(id=f"{pid}.Gstub{label}/builds", status="refuted", detail=f"{type(e).__name__}: {e}", witness={"confirmed": True, "source": src, "why": str(e)})]}
+    try:
+        cls = mod.C
+        stubs = []
+        for r in recs0:
+            if r.builder is None or r.builder.cls is not cls or "CodeBuilder(" not in r.text:
+                continue
+            for n in ast.parse(r.text).body:
+                if isinstance(n, ast.FunctionDef) and g7.unit_identity(n.name):
+                    stubs.append((r, n))
+        probs = []
+        for r, fn in stubs:
+            n_static = [ast.unparse(c.func) for c in ast.walk(fn) if isinstance(c, ast.Call) and isinstance(c.func, ast.Attribute) and c.func.attr in HOOK_NAMES]
+            try:
+                eng = pysym.Engine()
+                ex = pysym.Executor(eng, dict(r.globals))
+                ex.assume_hasattr = True
+                ex.nonraising_prefixes = ("",)
+                ex.ghost_calls = {("meth", h): h for h in HOOK_NAMES}
+                args = {}
+                for a in fn.args.args + fn.args.kwonlyargs:
+                    args[a.arg] = Tm(eng.fresh(a.arg))
+                paths = ex.run(fn, args)
+                prover = pysym.Prover(eng, 5000)
+                for path in paths:
+                    if prover.sat(path.pc)[0] == z3.unsat:
+                        continue
+                    hs = [g[1] for g in path.ghosts if g[0] == "call" and g[1] in HOOK_NAMES]
+                    if hs:
+                        probs.append(f"{fn.name}: the stub itself calls {sorted(set(hs))} before re-dispatching to the compiled method (which calls it again)")
+            except pysym.NotInSubset:
+                if n_static:
+                    probs.append(f"{fn.name}: the stub text calls {sorted(set(n_static))}")
+        w = None
+        # native first calls with counting hooks
+        first = []
+        try:
+            inst = cls(1)
+            for to_name, from_name in eps:
+                pub_to = to_name.replace("__mashumaro_", "").rstrip("_")
+                pub_from = from_name.replace("__mashumaro_", "").rstrip("_")
+                if not hasattr(inst, pub_to) or "_dict_" in pub_to:
+                    continue
+                mod.LOG.clear()
+                out = getattr(inst, pub_to)()
+                c = {k: sum(1 for e in mod.LOG if e[0] == k) for k in ("pre_ser", "post_ser")}
+                if c != {"pre_ser": 1, "post_ser": 1}:
+                    first.append(f"first {pub_to}(): hook calls {c}, expected one each")
+                mod.LOG.clear()
+                getattr(cls, pub_from)(out)
+                c = {k: sum(1 for e in mod.LOG if e[0] == k) for k in ("pre_de", "post_de")}
+                if c != {"pre_de": 1, "post_de": 1}:
+                    first.append(f"first {pub_from}(): hook calls {c}, expected one each")
+        except Exception as e:  # noqa
+            first.append(f"first call raised {type(e).__name__}: {str(e)[:160]}")
+        if first:
+            w = {"confirmed": True, "source": src, "input": "C(1), first call of each entry point", "why": "; ".join(first)[:600]}
+        obs.append(dict(id=f"{pid}.Gstub{label}/stub_runs_no_hook", status="proved" if not probs else "refuted", unit=f"{len(stubs)} stub functions",
+                        detail="; ".join(sorted(set(probs)))[:700], witness=w if probs else None))
+        if not stubs:
+            obs.append(dict(id=f"{pid}.Gstub{label}/cover", status="refuted", detail="no stub text harvested for a lazy/postponed class (vacuity guard)"))
+        obs.append(dict(id=f"{pid}.Hstub{label}/first_call_counts", status="proved" if not first else "refuted", unit="native first calls with counting hooks (bounded)", bounded=True,
+                        detail="; ".join(first)[:600], witness=w))
+        return {"obligations": obs}
+    finally:
+        build.drop_module(mod)
+
+
 def lattice(tier):
     pts = []
     hook_sets = [("pre_ser", "post_ser", "pre_de", "post_de"), ("pre_ser",), ("post_ser",), ("pre_de",), ("post_de",), ("pre_ser", "post_ser"), ()]
@@ -332,6 +466,7 @@ def check(pid, tier):
     pts = lattice(tier)
     res = runner.run_pool(c19_task, [(pid, p) for p in pts], chunks=2)
     res += runner.run_pool(union_task, [(pid, "unions")], chunks=1)
+    res += runner.run_pool(stub_task, [(pid, base, mode, ctx) for base in ("dict", "orjson", "msgpack") for mode in ("lazy", "postponed") for ctx in (False, True)], chunks=1)
     obs, crashes = [], []
     for r in res:
         if "crash" in r:
@@ -344,6 +479,6 @@ def check(pid, tier):
         units=len(pts) + 1,
         extra_cov={"points": len(pts), "explanation": "bases dict/orjson/msgpack/plain-codec x hook subsets x context opt-in x field shapes (holes, nested dataclasses with and without their own opt-in, typing.Self positions); union helpers: serializer attempts per returning path"},
         trusted={"A2: hooks are pure and return a conforming instance / JSON-like mapping", "nested instances: one nested serializer call per element per returning path by the comprehension (map) rule"},
-        functions=["CodeBuilder._add_pack_method_lines / _add_unpack_method_lines hook emission", "pack_union (attempt counting)", "pack_dataclass / pack Self flag forwarding"],
+        functions=["CodeBuilder._add_pack_method_lines / _add_unpack_method_lines hook emission", "CodeBuilder._add_pack_method_lines_lazy / _add_unpack_method_lines_lazy (stub runs no hook)", "pack_union (attempt counting)", "pack_dataclass / pack Self flag forwarding"],
         crashes=crashes,
     )
